@@ -154,6 +154,11 @@ func init() {
 		panic(inconclusive{"regexp match without a harness-provided outcome"})
 	}
 	stubs["(*regexp.Regexp).String"] = func(e *Exec, fn *ssa.Function, args []value) value { return "<regexp>" }
+	stubs["regexp.MustCompile"] = func(e *Exec, fn *ssa.Function, args []value) value {
+		p := new(value)
+		*p = "regexp:" + argStr(args[0])
+		return p
+	}
 
 	// path/filepath on concrete strings; Base/Ext symbolically byte-wise
 	stubs["path/filepath.Base"] = func(e *Exec, fn *ssa.Function, args []value) value {
